@@ -43,6 +43,49 @@ def _row_from_own_cells(prog, c):
     return len(ev) == 1 and len(rn) == 1 and len(mp) == 1 and tv and own and S.val(ev[0]["args"][1]).startswith("&call@")
 
 
+def _row_own_loose(prog, c):
+    """weaker, form-independent reading of `the row evaluated is built from that very row's cells`: the values handed to Row::new derive from the closure's own row
+    argument, through ValueRef::to_value, and the evaluated row is that Row"""
+    from ..flow import derived_locals
+    S = Sym(prog, c)
+    ev = [t for b, t in c.calls() if cname(prog, t) == EVAL]
+    rn = [t for b, t in c.calls() if cname(prog, t) == "msi::internal::table::Row::new"]
+    unit = [c] + [cc for bb, cc in closure_sites(prog, c)]
+    tv = [(g, t) for g in unit for b, t in g.calls() if cname(prog, t) == "msi::internal::value::ValueRef::to_value"]
+    if not (len(ev) == 1 and len(rn) == 1 and tv):
+        return False
+    der = derived_locals(c, {2}, through_calls=lambda t: True)
+    a = rn[0]["args"][1]
+    return bool(a.get("pl")) and a["pl"]["l"] in der and S.val(ev[0]["args"][1]).startswith("&call@")
+
+
+def filter_scenarios(prog, c):
+    """the filter closure c under each case of (condition present?, condition true?): {scenario: (constant result or None, releases cells?)}.
+    Conditional constant propagation on the closure body (spec.specialise), so the verdict does not depend on how the flag is spelled
+    (`should_delete` / `should_keep`, match / if-let, early return / trailing expression)."""
+    from ..spec import specialise, fold
+    S = Sym(prog, c)
+    tb = [(b, t) for b, t in c.calls() if cname(prog, t) == TOBOOL]
+    ev = [(b, t) for b, t in c.calls() if cname(prog, t) == EVAL]
+    if len(tb) != 1 or len(ev) != 1:
+        return None
+    disc = [(e, tr) for (e, tr, g) in S.bool_facts_at(ev[0][0]) if e.startswith("discr(") and "Try" not in e and "Iterator" not in e and tr in (("==", 1), ("notin", (0,)))]
+    scen = {}
+    if disc:
+        cexpr = disc[-1][0]
+        cases = [("present,true", {cexpr: 1}, 1), ("present,false", {cexpr: 1}, 0), ("absent", {cexpr: 0}, None)]
+    else:
+        cases = [("present,true", {}, 1), ("present,false", {}, 0)]
+    for name, dmap, tval in cases:
+        g = specialise(prog, c, discr=dmap, calls=({tb[0][0]: tval} if tval is not None else {}))
+        Sg = Sym(prog, g)
+        r = fold(Sg.local(0))
+        m = re.fullmatch(r"c:([01])", r)
+        rel = any(cname(prog, t) == "msi::internal::value::ValueRef::remove" for b, t in g.calls())
+        scen[name] = (int(m.group(1)) if m else None, rel, r)
+    return scen
+
+
 def run(ctx):
     prog = ctx.prog
     R = "REL-FILTER"
@@ -52,7 +95,8 @@ def run(ctx):
     # Select
     f = prog.fn(Q + "Select::exec")
     cl = _cond_closure(prog, f)
-    ok = len(cl) == 1 and _row_from_own_cells(prog, cl[0]) and any(cname(prog, t) == TOBOOL and t["dest"]["l"] == 0 for b, t in cl[0].calls())
+    from ..lib import ret_locals as _rl
+    ok = len(cl) == 1 and _row_from_own_cells(prog, cl[0]) and any(cname(prog, t) == TOBOOL and t["dest"]["l"] in _rl(cl[0]) for b, t in cl[0].calls())
     ctx.check(ok, R, "Select keeps matching rows", "retain(|r| to_bool(eval(r)))", "Select::exec's filter closure does not return to_bool(condition.eval(row of its own cells))", f.loc(), fn=f.name, key=R + "|Select")
     S = Sym(prog, f)
     rt = [(b, t) for b, t in f.calls() if (t.get("callee") or "").endswith("Vec::<T, A>::retain")]
@@ -60,36 +104,15 @@ def run(ctx):
     # Delete
     f = prog.fn(Q + "Delete::exec")
     cl = _cond_closure(prog, f)
-    ok = len(cl) == 1
+    ok, detail = len(cl) == 1, "no single closure evaluating the condition"
     if ok:
         c = cl[0]
-        Sc = Sym(prog, c)
-        tb = [(b, t) for b, t in c.calls() if cname(prog, t) == TOBOOL]
-        res = {}
-        for bl in c.blocks:
-            if bl["cleanup"]:
-                continue
-            for s in bl["stmts"]:
-                if s["lhs"]["l"] == 0 and s["rhs"]["rv"] == "use" and s["rhs"]["ops"][0].get("k") == "const":
-                    res[s["rhs"]["ops"][0]["int"]] = bl["id"]
-        # should_delete local: assigned from to_bool under Some, const true under None; `false` result on its true edge
-        from .dml import not_result_local
-        nl = not_result_local(c)
-        if nl is not None and not res and len(tb) == 1 and _row_from_own_cells(prog, c):
-            # result is `!should_delete`: should_delete is to_bool(..) under Some and `true` without a condition
-            L = tb[0][1]["dest"]["l"]
-            from ..flow import derived_locals
-            ok = nl in derived_locals(c, {L}) and any(s["lhs"]["l"] in (L, nl) and s["rhs"]["rv"] == "use" and s["rhs"]["ops"][0].get("int") == 1 for bl in c.blocks for s in bl["stmts"])
-        else:
-            ok = len(tb) == 1 and 0 in res and 1 in res and _row_from_own_cells(prog, c)
-        if ok and nl is None:
-            L = tb[0][1]["dest"]["l"]
-            none_true = any(s["lhs"]["l"] == L and s["rhs"]["rv"] == "use" and s["rhs"]["ops"][0].get("int") == 1 for bl in c.blocks for s in bl["stmts"])
-            f0 = [(e, tr) for (e, tr, g) in Sc.bool_facts_at(res[0]) if e == "_%d" % L]
-            f1 = [(e, tr) for (e, tr, g) in Sc.bool_facts_at(res[1]) if e == "_%d" % L]
-            ok = none_true and f0 and f0[-1][1] is True and f1 and f1[-1][1] is False
-    ctx.check(ok, R, "Delete drops matching rows", "retain returns false iff should_delete", "Delete::exec's retain closure does not return `false` exactly when to_bool(condition.eval(row)) (or no condition)",
-              f.loc(), fn=f.name, key=R + "|Delete")
+        sc = filter_scenarios(prog, c)
+        want = {"present,true": 0, "present,false": 1, "absent": 0}
+        ok = sc is not None and set(sc) == set(want) and all(sc[k][0] == want[k] for k in want) and (_row_from_own_cells(prog, c) or _row_own_loose(prog, c))
+        detail = str({k: v[2] for k, v in (sc or {}).items()})
+    ctx.check(ok, R, "Delete drops matching rows", "retain returns false iff the condition is absent or true", "Delete::exec's retain closure does not return `false` exactly when "
+              "to_bool(condition.eval(row)) (or no condition): results per case %s" % detail, f.loc(), fn=f.name, key=R + "|Delete")
     # Update
     f = prog.fn(Q + "Update::exec")
     S = Sym(prog, f)
@@ -104,7 +127,8 @@ def run(ctx):
         # or the evaluation wrapped in Option::is_none_or
         dflt = any(s["lhs"]["l"] == 0 and s["rhs"]["rv"] == "use" and s["rhs"]["ops"][0].get("int") == 1 for g in unit_cl for bl in g.blocks for s in bl["stmts"]) or \
             any(cname(prog, t).endswith("Option::<T>::is_none_or") for g in [f] + unit_cl for b, t in g.calls())
-        ok = len(tb) == 1 and tb[0][1]["dest"]["l"] == 0 and dflt
+        from ..lib import ret_locals
+        ok = len(tb) == 1 and tb[0][1]["dest"]["l"] in ret_locals(c) and dflt
         # the selection vector drives the apply loop: create() sits under a fact on an element of the zipped `selected`
         cr = [(b, t) for b, t in f.calls() if cname(prog, t) == "msi::internal::value::ValueRef::create"]
         if ok and cr:
@@ -180,7 +204,9 @@ def run(ctx):
     if okp:
         nx = [c for c in cs if c[1].endswith("Iterator>::next") and "p1.column_names" in c[2][0]]
         okp = len(nx) == 1 and any(push[0][0] in bl and nx[0][0] in bl for bl in loops.values())
-    maps = [c for c in cs if c[1].endswith("Iterator::map") and re.search(r"iter\(&\*<std::vec::Vec<T, A> as std::ops::Deref>::deref\(&call@\d+:std::vec::Vec::<T>::with_capacity\)\)", c[2][0])]
+    from ..lib import unit_calls as _ucalls
+    ucs = [(b, n, a, t) for (b, n, a, t, L) in _ucalls(prog, f, S)]
+    maps = [c for c in ucs if c[1].endswith("Iterator::map") and c[2] and re.search(r"iter\(&?\*?<std::vec::Vec<T, A> as std::ops::Deref>::deref\(&?call@\d+:std::vec::Vec::<T>::with_capacity\)\)", c[2][0])]
     # a projection may also be spelled as a loop over the index list that pushes into a fresh vector
     idx_iter = r"iter\(&\*<std::vec::Vec<T, A> as std::ops::Deref>::deref\(&call@\d+:std::vec::Vec::<T>::with_capacity\)\)"
     for c in cs:
